@@ -51,13 +51,13 @@ func init() {
 			for _, pkg := range []string{"middleware", "resbadger"} {
 				for _, typ := range []string{"model", "collection"} {
 					for _, def := range []bool{false, true} {
-						bs = append(bs, core.Batch{Name: fmt.Sprintf("seq-%d", i), TimeoutS: 600, Params: core.Params(c20Params{Cfg: c20Cfg{pkg, typ, def, false}, N: tierPick(tier, 12, 500)})})
+						bs = append(bs, core.Batch{Name: fmt.Sprintf("seq-%d", i), TimeoutS: 600, Params: core.Params(c20Params{Cfg: c20Cfg{pkg, typ, def, false}, N: tierPick(tier, 30, 500)})})
 						i++
 					}
 				}
 			}
 			for s := 0; s < tierPick(tier, 2, 8); s++ {
-				bs = append(bs, core.Batch{Name: fmt.Sprintf("index-%d", s), TimeoutS: 600, Params: core.Params(c20Params{Cfg: c20Cfg{"resbadger", "model", false, true}, N: tierPick(tier, 10, 300)})})
+				bs = append(bs, core.Batch{Name: fmt.Sprintf("index-%d", s), TimeoutS: 600, Params: core.Params(c20Params{Cfg: c20Cfg{"resbadger", "model", false, true}, N: tierPick(tier, 25, 300)})})
 			}
 			return bs
 		},
